@@ -231,11 +231,13 @@ def run_de(rng, obs):
     kind, rule = strat[:-3], strat[-3:]
     NP = max(rng.choice([4, 6, 9, 15]), NEEDS[kind] + 1 + (1 if kind != 'Best1' else 0), dim)
     NP = max(NP, NEEDS[kind] + 1)
+    big = rng.random() < 0.08          # populations well beyond the usual few dozen (member indices past CPython's small-int cache included)
+    if big: NP = rng.choice([40, 130, 260, 300, 520])
     CR = rng.choice([0.0, 0.0, 0.1, 0.5, 0.9, 1.0]); F = rng.choice([0.0, 0.3, 0.8, 0.8, 1.2])
     sticky = rng.random() < 0.4          # settings given with the first Step only: they are documented to persist
     spec = K.gen_cost(rng, dim, ['sphere', 'illquad', 'rosen', 'abs', 'step'])
     raw = K.make_cost(spec)
-    gens = rng.randint(3, 12)
+    gens = rng.randint(2, 3) if big else rng.randint(3, 12)
     obs.desc = {'solver': which, 'strategy': strat, 'dim': dim, 'NP': NP, 'CR': CR, 'F': F, 'cost': spec, 'generations': gens, 'sticky': sticky}
     probe = K.CostProbe(raw)
     s = (DifferentialEvolutionSolver if which == 'de' else DifferentialEvolutionSolver2)(dim, NP)
